@@ -102,11 +102,12 @@ REGISTRY = {
     },
     "C10": {
         "level": "exploration",
-        "claim": "Concurrent API programs (Open blocking/background, Close, sends, UpdateConfigOptions valid/invalid, State, Metrics) from 1-5 goroutines at drawn offsets over 1-3 open/close cycles against peers that are absent, cooperative, silent, drop or flap, on HSMS-SS and SECS-I connections in both roles, in real time with small timers; every call is bounded, Close is bounded and idempotent, after Close no goroutine runs library code, every socket/listener handed to the library is closed, no dial/listen follows, State() is NotConnected; a re-Open reaches Selected, a second Open is refused with ErrAlreadyOpen without side effects (also while a reconnect is pending, which must still complete), and a round trip works.",
+        "claim": "Concurrent API programs (Open blocking/background, Close, sends, UpdateConfigOptions valid/invalid, State, Metrics) from 1-5 goroutines at drawn offsets over 1-3 open/close cycles against peers that are absent, cooperative, silent, drop or flap, on HSMS-SS and SECS-I connections in both roles, in real time with small timers; every call is bounded, Close is bounded and idempotent, after Close no goroutine runs library code, every socket/listener handed to the library is closed, no dial/listen follows, State() is NotConnected; a re-Open reaches Selected, a second Open is refused with ErrAlreadyOpen without side effects (also while a reconnect is pending, which must still complete), and a round trip works. In virtual time: Close against a peer that stopped reading (window 0-13 bytes, optionally one sender blocked in its write, write timeout default 30 s / 5 s / 300 ms) returns within close timeout + the 500 ms farewell bound, exactly.",
         "trust": "Real time: bounds are upper bounds with seconds of slack and leak detectors poll for 2 s; handlers return (as the statement assumes).",
         "technique": "property-based testing (rapid): generated concurrent API programs x peer behaviours with leak detectors (goroutine dump, socket registry, dial log)",
         "tests": [
             {"name": "TestC10Lifecycle", "shards": 8, "shards_thorough": 8, "crash_is_violation": True},
+            {"name": "TestC10StuckPeer", "shards": 4, "shards_thorough": 16, "crash_is_violation": True},
         ],
         "require": {"c10:reopened": 48},
     },
